@@ -398,13 +398,16 @@ def gen_negloop(rng):
     def blit(p):
         return (p, tuple(["X"] * min(1, preds[p][0]) + [rng.choice(consts) for _ in range(max(0, preds[p][0] - 1))])) if par else \
                (p, tuple(rng.choice(consts) for _ in range(preds[p][0])))
+    anypos = rng.random() < 0.15
     for i, p in enumerate(der):
         for c in range(rng.randint(1, 3)):
             body = []
             if par:
                 body.append(("pos", blit(rng.choice(guard))))
             for _ in range(rng.randint(0, 2)):
-                body.append(("pos", blit(rng.choice(base))) if rng.random() < 0.6 else ("pos", (rng.choice(der), hargs)))
+                # positive calls of derived predicates go to LOWER ones (no positive cycle: see `has_positive_cycle`), rarely anywhere
+                lower = der if anypos else der[:i]
+                body.append(("pos", blit(rng.choice(base))) if (rng.random() < 0.6 or not lower) else ("pos", (rng.choice(lower), hargs)))
             if c > 0 or rng.random() < 0.3:
                 body.append(("neg", (rng.choice(der), hargs)))
             if not body:
@@ -427,6 +430,11 @@ def _cheap_work2(item):
 
 def _full_work(item):
     return [(tag, semcheck.run_cfg(src, cfg)) for tag, src, cfg in item]
+
+
+def settled(runs, item, runner, timeout=120):
+    """Runs that ran out of time (loaded machine) repeated with a long limit (corpus builders)."""
+    return [(t, runner(src, cfg, timeout=timeout) if is_timeout(r) else r) for (tag, src, cfg), (t, r) in zip(item, runs)]
 
 
 def is_timeout(r):
@@ -539,8 +547,8 @@ def cheap_stream(ctx, drv, progs, seeds, variants, label, cls="agree", max_shrin
     """Second stream: many small programs, each under a few variants, with the cheap comparison only (engine outcome vs the
     specification `Sem`; numbers by enumeration of the ground formula). class "agree": two-valued programs, every variant
     must give the specification's answer (known findings are matched as in the main stream). class "reject": programs in
-    which a query atom is undefined in the well-founded model of some world and that lie OUTSIDE the region of known finding
-    C02-missed-negative-cycle: every variant must end in a grounding error."""
+    which a query atom is undefined in the well-founded model of some world and that have no positive cycle (`reject_region`):
+    every variant must end in a grounding error."""
     import time
     t0 = time.time()
     sems = semcheck.spec_batch(drv, progs)
@@ -551,8 +559,8 @@ def cheap_stream(ctx, drv, progs, seeds, variants, label, cls="agree", max_shrin
             ctx.count("%s: skipped(too many worlds)" % label)
         elif cls == "agree" and sem["undef"] > 0:
             ctx.count("%s: outside-fragment(non-two-valued)" % label)
-        elif cls == "reject" and (sem["undef_roots"] == 0 or spine.poscycle_in_negcycle_scc(P)):
-            ctx.count("%s: not must-reject / inside the region of the missed-negative-cycle finding" % label)
+        elif cls == "reject" and (sem["undef_roots"] == 0 or not reject_region(P)):
+            ctx.count("%s: not must-reject / has a positive cycle" % label)
         else:
             sel.append((P, sd, sem))
     items = [variants(P, sd) for P, sd, _ in sel]
@@ -580,7 +588,7 @@ def cheap_stream(ctx, drv, progs, seeds, variants, label, cls="agree", max_shrin
                     s2 = semcheck.spec_batch(drv, [c])[0]
                     if s2 is None or (cls == "agree" and s2["undef"] > 0) or (cls == "reject" and s2["undef_roots"] == 0):
                         return False
-                    if cls == "reject" and spine.poscycle_in_negcycle_scc(c):
+                    if cls == "reject" and not reject_region(c):
                         return False
                     for t2, src2, cfg2 in variants(c, sd):
                         if t2 == tag:
@@ -644,6 +652,42 @@ def recursive_preds(P):
                     st.append(y)
         return seen
     return {p for p in g if p in reach(p)}
+
+
+def has_positive_cycle(P):
+    """Some ground atom depends on itself through positive body literals only (instantiation over the constants)."""
+    rules, _ = spine.reference(P)
+    dep = {}
+    for h, b, c in rules:
+        dep.setdefault(h, set()).update(a for t, a in b if t == "pos")
+    state = {}
+    for root in dep:
+        if root in state:
+            continue
+        stack = [(root, iter(dep.get(root, ())))]
+        state[root] = 1
+        while stack:
+            node, it = stack[-1]
+            for y in it:
+                st = state.get(y)
+                if st == 1:
+                    return True
+                if st is None:
+                    state[y] = 1
+                    stack.append((y, iter(dep.get(y, ()))))
+                    break
+            else:
+                state[node] = 2
+                stack.pop()
+    return False
+
+
+def reject_region(P):
+    """Programs of the must-reject stream / corpus: no ground atom depends positively on itself. (With a positive cycle next
+    to the loop through negation the current engine may close the positive cycle first and answer: known finding
+    C02-missed-negative-cycle when both lie in one component, and - rarely - also when they do not, e.g.
+    `p0 :- f1, \\+p0. p0 :- p1. p3 :- p3. p3 :- p0, \\+p0. query(p3).`; that is C02's subject, not the order's.)"""
+    return not has_positive_cycle(P)
 
 
 def region(P):
